@@ -123,6 +123,16 @@ func (dm *DagModifier) WriteAt(b []byte, offset int64) (int, error) {
 	return dm.Write(b)
 }
 
+// dropReader discards the active reader, if any. It must be called before
+// curNode is replaced or rewritten in place, otherwise later reads are served
+// from the old DAG.
+func (dm *DagModifier) dropReader() {
+	if dm.read != nil {
+		dm.readCancel()
+		dm.read = nil
+	}
+}
+
 // A reader that just returns zeros
 type zeroReader struct{}
 
@@ -136,6 +146,7 @@ func (zr zeroReader) Read(b []byte) (int, error) {
 // expandSparse grows the file with zero blocks of 4096
 // A small blocksize is chosen to aid in deduplication
 func (dm *DagModifier) expandSparse(size int64) error {
+	dm.dropReader()
 	r := io.LimitReader(zeroReader{}, size)
 	spl := chunker.NewSizeSplitter(r, 4096)
 	nnode, err := dm.appendData(dm.curNode, spl)
@@ -760,6 +771,7 @@ func (dm *DagModifier) Truncate(size int64) error {
 		return dm.expandSparse(size - realSize)
 	}
 
+	dm.dropReader()
 	nnode, err := dm.dagTruncate(dm.ctx, dm.curNode, uint64(size))
 	if err != nil {
 		return err
